@@ -635,6 +635,9 @@ class BoboDistributedTCP(BoboDistributed,
         try:
             all_bytes = bytearray()
 
+            # Accepted sockets are blocking: bound every read
+            client_s.settimeout(self._timeout_receive)
+
             while True:
                 now = int(time.time())
                 elapse = (now - client_accepted)
@@ -644,7 +647,13 @@ class BoboDistributedTCP(BoboDistributed,
                         "Message timeout ({} seconds)"
                         .format(elapse))
 
-                bytes_msg = client_s.recv(self._recv_bytes)
+                try:
+                    bytes_msg = client_s.recv(self._recv_bytes)
+                except socket.timeout:
+                    raise BoboDistributedTimeoutError(
+                        "Message timeout (no data for {} seconds)"
+                        .format(self._timeout_receive))
+
                 all_bytes.extend(bytes_msg)
 
                 # If bytes received so far are at least the minimum length
